@@ -9,7 +9,7 @@ from .collections_impl import (
     ContainNestedFieldMixin,
     _CollectionMeta,
 )
-from .fields import _map_to_field
+from .fields import _map_to_field, _named_copy
 
 
 class Map(
@@ -69,17 +69,18 @@ class Map(
         self.validate_size(value, self._name)
 
         if self.items is not None:
-            key_field, value_field = self.items[0], self.items[1]
-            setattr(key_field, "_name", self._name + "_key")
-            setattr(value_field, "_name", self._name + "_value")
+            key_field = _named_copy(self.items[0], self._name + "_key")
+            value_field = _named_copy(self.items[1], self._name + "_value")
+            setattr(self.items[0], "_name", key_field._name)
+            setattr(self.items[1], "_name", value_field._name)
             res = OrderedDict()
             for key, val in value.items():
                 temp_st = Structure()
                 key_field.__set__(temp_st, key)
                 value_field.__set__(temp_st, val)
 
-                res[getattr(temp_st, getattr(key_field, "_name"))] = getattr(
-                    temp_st, getattr(value_field, "_name")
+                res[getattr(temp_st, key_field._name)] = getattr(
+                    temp_st, value_field._name
                 )
                 value = res
             self.validate_size(value, self._name)
